@@ -28,13 +28,12 @@ var initAllow = map[string]bool{
 	"github.com/spf13/pflag": false, "crypto/elliptic": true, "github.com/keybase/go-crypto/brainpool": true, "crypto": true, "github.com/spf13/cobra": false,
 }
 
-func (i *interpreter) intercept(fn *ssa.Function, name string) handler {
-	if fn.Pkg != nil && fn.Pkg.Pkg.Path() == ModulePath+"/logging" {
-		return func(fr *frame, args []value) value { return zeroResults(fn) }
-	}
-	// package initialisers
-	if fn.Name() == "init" && fn.Pkg != nil && fn.Signature.Recv() == nil && fn.Parent() == nil {
+func (i *interpreter) intercept(fn *ssa.Function, info *fnInfo) handler {
+	if fn.Pkg != nil && fn.Name() == "init" && fn.Signature.Recv() == nil {
 		pkg := fn.Pkg
+		if pkg.Pkg.Path() == ModulePath+"/logging" {
+			return func(fr *frame, args []value) value { return nil }
+		}
 		if isGopki(pkg) {
 			return nil // run for real (guards are reset per path)
 		}
@@ -50,15 +49,22 @@ func (i *interpreter) intercept(fn *ssa.Function, name string) handler {
 		}
 		return nil
 	}
+	if info.resolved {
+		return info.handler
+	}
+	info.resolved = true
 	if fn.Pkg != nil && isGopki(fn.Pkg) {
+		if fn.Pkg.Pkg.Path() == ModulePath+"/logging" {
+			info.handler = func(fr *frame, args []value) value { return zeroResults(fn) }
+			return info.handler
+		}
 		if h := harnessAPI[fn.Name()]; h != nil && fn.Signature.Recv() == nil {
+			info.handler = h
 			return h
 		}
-		if fn.Pkg.Pkg.Path() == ModulePath+"/logging" {
-			return func(fr *frame, args []value) value { return zeroResults(fn) }
-		}
 	}
-	if h := stubs[name]; h != nil {
+	if h := stubs[info.name]; h != nil {
+		info.handler = h
 		return h
 	}
 	return nil
